@@ -186,7 +186,9 @@ func (s *sshProxyService) Handle(ctx context.Context, conn net.Conn) error {
 		))
 
 		requestFn := func(in <-chan *ssh.Request, dst ssh.Channel) {
-			defer dst.Close()
+			// no dst.Close() here: the request stream of a channel ends when that channel
+			// is closed, which can be before the data copier (copyFn, which closes dst
+			// itself) has delivered what is still buffered
 
 			for req := range in {
 				log.Debugf("Request: %s %s %s %s\n", dst, req.Type, req.WantReply, req.Payload)
